@@ -819,6 +819,9 @@ class _Interp(object):
             if isinstance(base, Regex) and n.attr in ("pattern", "flags", "groups"):
                 import re as _re
                 return getattr(_re.compile(base.pattern, base.flags), n.attr)
+            if isinstance(base, (str, bytes, tuple, frozenset, int)) and not isinstance(base, bool) and n.attr in ("__add__", "__mod__", "__mul__", "__contains__", "__getitem__", "__eq__", "__ne__", "__len__", "__radd__", "__lt__", "__le__", "__gt__", "__ge__"):
+                # a bound operator method of an immutable value taken as a value: map(PREFIX.__add__, tails)
+                return Native(getattr(base, n.attr))
             if isinstance(base, _CONTAINERS) and n.attr in _PURE_METHODS.get(type(base), ()):
                 # a bound built-in method taken as a value: append = res.extend
                 return Native(getattr(base, n.attr))
@@ -843,6 +846,10 @@ class _Interp(object):
                 return ref
         if isinstance(n, ast.Name) and n.id not in self.env and n.id in _BUILTIN_TYPES and n.id not in self.module.bindings:
             return _BUILTIN_TYPES[n.id]
+        if isinstance(n, ast.Name) and n.id not in self.env and n.id not in self.module.bindings and n.id in ("ord", "chr", "len", "hex", "bin", "oct", "abs", "repr", "hash", "callable", "min", "max", "sum", "sorted", "any", "all", "round", "divmod", "pow", "format", "ascii"):
+            # a pure builtin function taken as a value: map(ord, text), key=len
+            import builtins as _b
+            return Native(getattr(_b, n.id))
         # constants / module-level names
         v = self.repo.ceval(self.module, n, self.env)
         if isinstance(n, ast.Name) and n.id not in self.env and isinstance(v, Obj) and n.id in self.module.bindings:
